@@ -24,6 +24,7 @@ import PGProofs.Glue
 import PGProofs.BridgeBC
 import PGProofs.MomentsThm
 import PGProofs.RewardsThm
+import PGProofs.EndToEnd2
 
 set_option linter.all false
 set_option pp.fieldNotation.generalized false
@@ -79,6 +80,12 @@ theorem cov_padding : ∀ (n : ℕ) (idx : List ℕ) (x : ℕ → ℕ → ℚ) (
 /-- folded reward = unfolded i plus unfolded n-i, once if equal -/
 theorem folded_reward : ∀ (n : ℕ) (s : State) (i : ℕ), Reward.eval n s (Reward.foldedSFS i) = Reward.eval n s (Reward.unfoldedSFS i) + if i = n - i then 0 else Reward.eval n s (Reward.unfoldedSFS (n - i)) := @PG.folded_eq_fold
 
+/-- CAPSTONE (SFS route): the padded vector SFSDistribution.moment(k, rewards, start, end, center, permute) returns, bin by bin through CombinedReward([r, SFS_i]) on the block-counting graph, equals the padded vector of labelled typed-block combinations; all orders k -/
+theorem end_to_end_sfs : ∀ {D n : ℕ} [inst : NeZero n] {K : Type} [inst_1 : Field K] [inst_2 : LinearOrder K] [inst_3 : IsStrictOrderedRing K] {m : Model} {cinit : Fin D × Fin n → ℕ} {ts : ℕ → Fin D → ℚ} {mig : ℕ → Fin D → Fin D → ℚ} {r : ℕ → ℚ} {fuel : ℕ → ℕ} {G : ℕ → Graph}, 2 ≤ n → massBC cinit ≤ n → (∀ (e : ℕ), bfs (transit m (mkEpoch (ts e) (mig e) (r e))) (encBC cinit) (fuel e) = some (G e)) → ∀ (L : ExpLaw K) (n' : ℕ) (nv : Fin D → ℕ), ∑ d, nv d = massBC cinit → ∀ (x0 : Assembly.LabS encBC (G 0).visited n), cntF (Assembly.LabP.val x0) = Assembly.sampleBC nv → ∀ (eps : List EpochT) (dr : Reward) (sd tm : ℚ) (N : ℕ) (indices : List ℕ) (sfsReward : ℕ → Reward) (c : Api.MomentCall Reward), 1 ≤ c.k → (∀ (rs : List Reward), c.rewards = some rs → ↑(List.length rs) = c.k) → 0 ≤ Api.resolveTime Api.Variant.current c.endTime tm → EndToEnd.sfsMomentCallK Api.Variant.current (EndToEnd.codeCtx L G n' nv eps dr sd tm) N indices sfsReward c = Except.ok (EndToEnd.padSFSK N (List.map (fun i ↦ if 0 < Api.resolveTime Api.Variant.current c.startTime sd then EndToEnd.labAccBC L m ts mig G n' x0 eps sfsReward (EndToEnd.resolveRewardsK dr c.k c.rewards) c.center c.permute i (Api.resolveTime Api.Variant.current c.endTime tm) - EndToEnd.labAccBC L m ts mig G n' x0 eps sfsReward (EndToEnd.resolveRewardsK dr c.k c.rewards) c.center c.permute i (Api.resolveTime Api.Variant.current c.startTime sd) else EndToEnd.labAccBC L m ts mig G n' x0 eps sfsReward (EndToEnd.resolveRewardsK dr c.k c.rewards) c.center c.permute i (Api.resolveTime Api.Variant.current c.endTime tm)) indices)) := @PG.EndToEnd.sfs_moment_call_eq_labelled
+
+/-- specialised to the unfolded spectrum -/
+theorem end_to_end_sfs_unfolded : ∀ {D n : ℕ} [inst : NeZero n] {K : Type} [inst_1 : Field K] [inst_2 : LinearOrder K] [inst_3 : IsStrictOrderedRing K] {m : Model} {cinit : Fin D × Fin n → ℕ} {ts : ℕ → Fin D → ℚ} {mig : ℕ → Fin D → Fin D → ℚ} {r : ℕ → ℚ} {fuel : ℕ → ℕ} {G : ℕ → Graph}, 2 ≤ n → massBC cinit ≤ n → (∀ (e : ℕ), bfs (transit m (mkEpoch (ts e) (mig e) (r e))) (encBC cinit) (fuel e) = some (G e)) → ∀ (L : ExpLaw K) (nv : Fin D → ℕ), ∑ d, nv d = massBC cinit → ∀ (x0 : Assembly.LabS encBC (G 0).visited n), cntF (Assembly.LabP.val x0) = Assembly.sampleBC nv → ∀ (eps : List EpochT) (dr : Reward) (sd tm : ℚ) (c : Api.MomentCall Reward), 1 ≤ c.k → (∀ (rs : List Reward), c.rewards = some rs → ↑(List.length rs) = c.k) → 0 ≤ Api.resolveTime Api.Variant.current c.endTime tm → EndToEnd.sfsMomentCallK Api.Variant.current (EndToEnd.codeCtx L G n nv eps dr sd tm) n (EndToEnd.unfoldedIndices n) Reward.unfoldedSFS c = Except.ok (EndToEnd.padSFSK n (List.map (fun i ↦ if 0 < Api.resolveTime Api.Variant.current c.startTime sd then EndToEnd.labAccBC L m ts mig G n x0 eps Reward.unfoldedSFS (EndToEnd.resolveRewardsK dr c.k c.rewards) c.center c.permute i (Api.resolveTime Api.Variant.current c.endTime tm) - EndToEnd.labAccBC L m ts mig G n x0 eps Reward.unfoldedSFS (EndToEnd.resolveRewardsK dr c.k c.rewards) c.center c.permute i (Api.resolveTime Api.Variant.current c.startTime sd) else EndToEnd.labAccBC L m ts mig G n x0 eps Reward.unfoldedSFS (EndToEnd.resolveRewardsK dr c.k c.rewards) c.center c.permute i (Api.resolveTime Api.Variant.current c.endTime tm)) (EndToEnd.unfoldedIndices n))) := @PG.EndToEnd.unfolded_sfs_moment_call_eq_labelled
+
 end PG.C02
 
 #print axioms PG.C02.cov_routes_agree
@@ -97,3 +104,5 @@ end PG.C02
 #print axioms PG.C02.cov_diag
 #print axioms PG.C02.cov_padding
 #print axioms PG.C02.folded_reward
+#print axioms PG.C02.end_to_end_sfs
+#print axioms PG.C02.end_to_end_sfs_unfolded
